@@ -380,6 +380,40 @@ def run_multi(rec, tier, seed):
                 continue
             if st != "ok" or tuple(Xh.shape) != (len(exp), 4, 4) or not numpy.array_equal(Xh.numpy(), numpy.stack(exp)):
                 rec.violation("extract_loci:stale_file_state_across_calls", case, expected=len(exp), observed=Xh if st != "ok" else list(Xh.shape))
+        # library default windows (in_window=2114, out_window=1000) and a realistic jitter on kilobase chromosomes
+        rsd = numpy.random.RandomState(41 + seed)
+        big = [("chrL", "".join(rsd.choice(list("ACGTacgtN"), size=6001, p=[.2, .2, .2, .2, .04, .04, .04, .04, .04]))),
+               ("chrS", "".join(rsd.choice(list("ACGT"), size=3100)))]
+        bfa = os.path.join(d, "big.fa")
+        with open(bfa, "w") as fh:
+            for n_, s_ in big:
+                fh.write(">%s\n" % n_)
+                for i_ in range(0, len(s_), 60):
+                    fh.write(s_[i_:i_ + 60] + "\n")
+        bsig = {n_: (numpy.arange(len(s_)) % 977).astype(numpy.float32) for n_, s_ in big}
+        bseq = {n_: _ohe_np(s_) for n_, s_ in big}
+        for jit in (0, 128):
+            half = 2114 // 2 + jit
+            mids = [half + 1, half + 2, 3000, 6001 - half - 2, 6001 - half - 1, half - 5, 6001 - half + 7]
+            rows = [("chrL", m_ - 10, m_ + 10) for m_ in mids] + [("chrS", 1500, 1600), ("chrS", 1549, 1551), ("chrS", 10, 30)]
+            dfb = pandas.DataFrame(rows, columns=["chrom", "start", "end"])
+            for inp in ("file", "dict"):
+                a = dict(sequences=bfa, signals=[bsig]) if inp == "file" else dict(sequences=bseq, signals=[bsig])
+                kwj = dict(max_jitter=jit) if jit else {}
+                st, val = call(extract_loci, dfb, **a, **kwj)
+                expX, expy = [], []
+                for (n_, s0, e0) in rows:
+                    s_ = dict(big)[n_]
+                    mid = s0 + (e0 - s0) // 2
+                    lo, hi = mid - 1057 - jit, mid + 1057 + jit
+                    if lo < 0 or hi >= len(s_):
+                        continue
+                    expX.append(_ohe_np(s_[lo:hi]))
+                    expy.append(bsig[n_][mid - 500 - jit:mid + 500 + jit][None])
+                rec.case(1, 1)
+                case = dict(fn="extract_loci", input=inp, windows="defaults 2114/1000", max_jitter=jit, loci=rows)
+                if st != "ok" or not numpy.array_equal(val[0].numpy(), numpy.stack(expX)) or not numpy.array_equal(val[1].numpy().astype(numpy.float32), numpy.stack(expy)):
+                    rec.violation("extract_loci:default_windows_wrong", case, expected=len(expX), observed=val if st != "ok" else list(val[0].shape))
         rec.sample(dict(kind="multi", locus_sets=[[len(S) for S in c] for c in sets_cfgs], chroms="None / subsets", n_loci="None,1,2,4",
                         counts="none/min/max at the exact window sum"))
     finally:
